@@ -8,10 +8,19 @@ using namespace datasketches;
 namespace vf {
 
 struct ReqFam {
-  typedef req_sketch<c08::Item> SK;
+  typedef req_sketch<c08::Item, c08::Cmp> SK;
   static const char* name() { static const std::string n = std::string("req") + c08::item_tag(); return n.c_str(); }
   // cfg = k + 1000 * hra
-  static SK make(int cfg) { return SK(static_cast<uint16_t>(cfg % 1000), cfg >= 1000); }
+  static SK make(int cfg) {
+    SK fresh = SK(static_cast<uint16_t>(cfg % 1000), cfg >= 1000, c08::cmp_instance());
+#if defined(C08_CMP_DESC)
+    // history 'serialize an empty sketch -> deserialize with the comparator instance -> keep using it' for 2 of 3 sketches
+    const unsigned mode = static_cast<unsigned>((c08::make_salt() + c08::make_seq()++) % 3);
+    if (mode == 1) { auto b = fresh.serialize(); return SK::deserialize(b.data(), b.size(), serde<c08::Item>(), c08::cmp_instance()); }
+    if (mode == 2) { std::stringstream ss(std::ios::in | std::ios::out | std::ios::binary); fresh.serialize(ss); return SK::deserialize(ss, serde<c08::Item>(), c08::cmp_instance()); }
+#endif
+    return fresh;
+  }
   static std::string cfg_text(int cfg) { return "k=" + std::to_string(cfg % 1000) + (cfg >= 1000 ? " HRA" : " LRA"); }
 #if defined(C08_ITEM_SELFMOVE)
   static bool allow_rt() { return false; }
@@ -26,10 +35,10 @@ struct ReqFam {
   static SK roundtrip_image(const SK& s, bool) { return s; }
 #else
   static SK roundtrip_image(const SK& s, bool bytes) {
-    if (bytes) { auto b = s.serialize(); return SK::deserialize(b.data(), b.size()); }
+    if (bytes) { auto b = s.serialize(); return SK::deserialize(b.data(), b.size(), serde<c08::Item>(), c08::cmp_instance()); }
     std::stringstream ss(std::ios::in | std::ios::out | std::ios::binary);
     s.serialize(ss);
-    return SK::deserialize(ss);
+    return SK::deserialize(ss, serde<c08::Item>(), c08::cmp_instance());
   }
 #endif
   static std::string published_error_text(const SK& s) { return "lb(0.5,1)=" + str(s.get_rank_lower_bound(0.5, 1)) + " ub(0.5,1)=" + str(s.get_rank_upper_bound(0.5, 1)); }
@@ -42,7 +51,7 @@ struct ReqFam {
   static SK roundtrip(const SK& s) {
     std::stringstream ss(std::ios::in | std::ios::out | std::ios::binary);
     s.serialize(ss);
-    return SK::deserialize(ss);
+    return SK::deserialize(ss, serde<c08::Item>(), c08::cmp_instance());
   }
 #endif
   static int forced_hra;   // -1 random
@@ -231,7 +240,7 @@ static void exact_stream_case(int k, bool hra, Rng& r) {
   for (int order = 0; order < 4; ++order) {
     const uint32_t seed = static_cast<uint32_t>(r.next());
     random_utils::random_bit.script = nullptr; random_utils::random_bit.seed(seed);
-    ReqFam::SK s(static_cast<uint16_t>(k), hra);
+    ReqFam::SK s(ReqFam::make(k + (hra ? 1000 : 0)));
     std::vector<float> sorted;
     bool ok = true;
     for (int i = 0; i < nmax && ok; ++i) {
@@ -247,7 +256,7 @@ static void exact_stream_case(int k, bool hra, Rng& r) {
     for (int n = 1; n <= nfresh && n <= nmax && ok; ++n) {
       const uint32_t seed = static_cast<uint32_t>(r.next());
       random_utils::random_bit.seed(seed);
-      ReqFam::SK s(static_cast<uint16_t>(k), hra);
+      ReqFam::SK s(ReqFam::make(k + (hra ? 1000 : 0)));
       for (int i = 0; i < n; ++i) s.update(c08::enc(perm[static_cast<size_t>(i)]));
       insert_sorted(sorted, perm[static_cast<size_t>(n - 1)]);
       ok = check_exact_region(s, sorted, k, hra, key, ctx0 + " order=random fresh sketch coin_seed=" + std::to_string(seed), st);
@@ -276,7 +285,7 @@ static void exact_merge_case(int k, bool hra, Rng& r) {
     const bool overlap = (li++ % 4) == 3;          // a and b draw from one small domain (ties across the two sketches)
     const uint32_t seed = static_cast<uint32_t>(r.next());
     random_utils::random_bit.script = nullptr; random_utils::random_bit.seed(seed);
-    ReqFam::SK a(static_cast<uint16_t>(k), hra), b(static_cast<uint16_t>(k), hra);
+    ReqFam::SK a(ReqFam::make(k + (hra ? 1000 : 0))), b(ReqFam::make(k + (hra ? 1000 : 0)));
     std::vector<float> all;
     std::vector<float> pa(static_cast<size_t>(n1)), pb(static_cast<size_t>(N));
     for (int i = 0; i < n1; ++i) pa[static_cast<size_t>(i)] = overlap ? static_cast<float>(r.below(static_cast<uint64_t>(N))) : static_cast<float>(2 * i);
@@ -334,6 +343,7 @@ static std::vector<c08::Cell> cells(bool T) {
 uint64_t num_cases(bool thorough) { return static_cast<uint64_t>(thorough ? NEXH_T : NEXH_Q) + cells(thorough).size() + (VARIANT ? 4 : NEXACT_FULL) + (VARIANT ? 0 : 2); }
 
 void run_case(uint64_t idx, Rng& r) {
+  c08::make_salt() = idx; c08::make_seq() = 0;
   const bool T = G().thorough();
   const uint64_t nexh = static_cast<uint64_t>(T ? NEXH_T : NEXH_Q);
   if (idx < nexh) {
